@@ -785,6 +785,10 @@ class Problem:
             self._scaling_factor = np.ones(self.n)
             self._scaling_shift = np.zeros(self.n)
 
+        # Set the number of evaluations of the problem. It must not be counted
+        # by the objective function, which is not called if ``fun`` is None.
+        self._n_eval = 0
+
         # Set the initial filter.
         self._feasibility_tol = feasibility_tol
         self._filter_size = filter_size
@@ -828,6 +832,7 @@ class Problem:
         # Evaluate the objective and nonlinear constraint functions.
         x = np.asarray(x, dtype=float)
         x_full = self.build_x(x)
+        self._n_eval += 1
         fun_val = self._obj(x_full)
         cub_val, ceq_val = self._nonlinear(x_full)
         maxcv_val = self.maxcv(x, cub_val, ceq_val)
@@ -977,7 +982,7 @@ class Problem:
         int
             Number of function evaluations.
         """
-        return self._obj.n_eval
+        return self._n_eval
 
     @property
     def fun_name(self):
